@@ -85,7 +85,11 @@ class Ctx:
         self.tier = tier
         self.seed = seed
         self.replay = replay
+        # VERIF_KEEP_SCRATCH: the documented, stable location; otherwise one directory per run so that
+        # concurrent runs of the same property do not delete each other's files
         self.scratch = os.path.join(VERIF, ".scratch", spec.pid)
+        if not os.environ.get("VERIF_KEEP_SCRATCH"):
+            self.scratch = os.path.join(self.scratch, "run-%d" % os.getpid())
         self.t0 = time.time()
         self.violations = []  # dicts {kind, sig, detail, replay}
         self.known_hits = {}  # sig -> what
@@ -189,15 +193,18 @@ def module_closure(mods):
 def lean_build(ctx):
     spec = ctx.spec
     targets = list(spec.lean_modules) + list(spec.lean_exes)
-    lock = open(os.path.join(LEAN, ".verif.lock"), "w")
-    fcntl.flock(lock, fcntl.LOCK_EX)
-    try:
-        t = time.time()
-        r = subprocess.run(["lake", "build"] + targets, cwd=LEAN, capture_output=True, text=True)
-        ctx.log("lake build %s -> %d (%.1fs)" % (" ".join(targets), r.returncode, time.time() - t))
-    finally:
-        fcntl.flock(lock, fcntl.LOCK_UN)
-        lock.close()
+    t = time.time()
+    r = subprocess.run(["lake", "build"] + targets, cwd=LEAN, capture_output=True, text=True)
+    ctx.log("lake build %s -> %d (%.1fs)" % (" ".join(targets), r.returncode, time.time() - t))
+    # private copies of the driver executables: a concurrent run against another tree may rebuild them
+    os.makedirs(ctx.scratch, exist_ok=True)
+    for exe in spec.lean_exes:
+        src = os.path.join(LEAN, ".lake", "build", "bin", exe)
+        if r.returncode == 0 or os.path.exists(src):
+            try:
+                shutil.copy(src, os.path.join(ctx.scratch, exe))
+            except OSError:
+                pass
     if r.returncode != 0:
         out = r.stdout + r.stderr
         errs = [l for l in out.splitlines() if "error" in l][:20]
@@ -283,13 +290,15 @@ def leanchecker(ctx):
 # Go side
 
 def package_name(pkgdir):
-    for fn in sorted(os.listdir(pkgdir)):
-        if fn.endswith(".go") and not fn.endswith("_test.go"):
-            with open(os.path.join(pkgdir, fn)) as f:
-                for line in f:
-                    mm = re.match(r"package\s+(\w+)", line)
-                    if mm:
-                        return mm.group(1)
+    names = sorted(os.listdir(pkgdir))
+    for test_only in (False, True):
+        for fn in names:
+            if fn.endswith(".go") and (fn.endswith("_test.go") == test_only):
+                with open(os.path.join(pkgdir, fn)) as f:
+                    for line in f:
+                        mm = re.match(r"package\s+(\w+)", line)
+                        if mm and not (test_only and mm.group(1).endswith("_test")):
+                            return mm.group(1)
     raise RuntimeError("no package clause in " + pkgdir)
 
 
@@ -353,7 +362,7 @@ def run_harness(ctx, h):
 
 
 def run_driver(ctx, h, linefile):
-    exe = os.path.join(LEAN, ".lake", "build", "bin", h.driver)
+    exe = os.path.join(ctx.scratch, h.driver)
     out = os.path.join(os.path.dirname(linefile), "model.txt")
     t = time.time()
     with open(linefile) as fin, open(out, "w") as fout:
@@ -468,22 +477,31 @@ def run(spec, tier, seed, replay=None):
     os.makedirs(ctx.scratch, exist_ok=True)
     before = repo_status()
     lean_ok = True
-    # 1. translators
-    for tr in spec.translators:
-        try:
-            tr(ctx)
-        except TieBroken as e:
-            ctx.broken.append(("translator:" + e.what, e.detail))
-            ctx.log("translator tie broken:", e.what)
-    # 2. prove
+    # Gen files, .olean files and driver executables are shared by every run in this workspace: regenerate, build,
+    # audit and take private copies of the drivers under ONE lock, so that a concurrent run against another tree
+    # (seeded change, fix worktree) can never be observed half-way.
+    lock = open(os.path.join(LEAN, ".verif.lock"), "w")
+    fcntl.flock(lock, fcntl.LOCK_EX)
     try:
-        lean_build(ctx)
-        if tier == "thorough":
-            leanchecker(ctx)
-    except TieBroken as e:
-        lean_ok = False
-        ctx.broken.append(("proof:" + e.what, e.detail))
-        ctx.log("proof obligation broken:", e.what)
+        # 1. translators
+        for tr in spec.translators:
+            try:
+                tr(ctx)
+            except TieBroken as e:
+                ctx.broken.append(("translator:" + e.what, e.detail))
+                ctx.log("translator tie broken:", e.what)
+        # 2. prove
+        try:
+            lean_build(ctx)
+            if tier == "thorough":
+                leanchecker(ctx)
+        except TieBroken as e:
+            lean_ok = False
+            ctx.broken.append(("proof:" + e.what, e.detail))
+            ctx.log("proof obligation broken:", e.what)
+    finally:
+        fcntl.flock(lock, fcntl.LOCK_UN)
+        lock.close()
     # 3./4. correspond + search
     for h in spec.harnesses:
         if replay is not None and replay.get("harness") not in (None, h.name):
@@ -492,7 +510,7 @@ def run(spec, tier, seed, replay=None):
             lf = run_harness(ctx, h)
             mf = None
             if h.driver:
-                exe = os.path.join(LEAN, ".lake", "build", "bin", h.driver)
+                exe = os.path.join(ctx.scratch, h.driver)
                 if lean_ok or os.path.exists(exe):
                     try:
                         mf = run_driver(ctx, h, lf)
@@ -550,8 +568,7 @@ def finish(ctx):
         for b in ctx.broken[:5]:
             print("BROKEN %s: %s" % (b[0], str(b[1])[:1500]), flush=True)
     if not os.environ.get("VERIF_KEEP_SCRATCH"):
-        for h in ctx.spec.harnesses:
-            shutil.rmtree(os.path.join(ctx.scratch, h.name), ignore_errors=True)
+        shutil.rmtree(ctx.scratch, ignore_errors=True)
     return rc
 
 
@@ -591,7 +608,7 @@ def write_evidence(ctx, rc):
         if k not in ev["coverage"] and k not in ("stats", "axioms", "harness"):
             ev["coverage"][k] = v
     # evidence belongs to runs against /repo itself; runs against a scratch worktree (VERIF_REPO) keep theirs in scratch
-    evdir = os.path.join(VERIF, "evidence") if (os.path.realpath(REPO) == "/repo" and ctx.replay is None) else ctx.scratch
+    evdir = os.path.join(VERIF, "evidence") if (os.path.realpath(REPO) == "/repo" and ctx.replay is None) else os.path.join(VERIF, ".scratch", ctx.pid)
     os.makedirs(evdir, exist_ok=True)
     with open(os.path.join(evdir, ctx.pid + ".json"), "w") as f:
         json.dump(ev, f, indent=1, sort_keys=True)
